@@ -24,6 +24,18 @@ CHECKS = {
     "C17": ("exploration", "deterministic simulation: foreign directory entries injected into the simulated FS, effect-trace oracle",
             "DESIGN.md §5 C17", "Directory pre-populated with near-miss names, dirs and symlinks (also named like WAL files); every FS effect must target a wal-<20 digits> regular file; foreign entries stay byte-identical.",
             "SimFs file_type semantics (no symlink following) as std::fs::DirEntry::file_type on Linux."),
+    "C02": ("fault_enumeration", "deterministic simulation with crash injection: disk images rebuilt from the effect trace at every crash point, real recovery, allowed-state oracle, continuation and second crash",
+            "DESIGN.md §5 C02", "Inside each seeded history the crash points (effect boundaries, torn-write offsets) are enumerated (completely in the thorough tier, seeded sample that always contains create/set_len/unlink boundaries in the quick tier); across histories the search is seeded sampling.",
+            "Process-crash model (effects reach the OS in program order). Crash images come from an uninterrupted execution's effect trace."),
+    "C03": ("fault_enumeration", "deterministic simulation with crash and power-loss injection: persisted-superset oracle at every crash point under every persist policy",
+            "DESIGN.md §5 C03", "Every crash boundary of each seeded history under two loss models (OS view; durable view + seeded subset of unsynced effects); the recovered state must contain everything persisted at the last obliging call and invent nothing.",
+            "Power-loss model: unsynced file data lost per 512-byte sector, set_len independently, directory operations as a prefix of program order; fdatasync persists content+length, directory fsync persists names."),
+    "C04": ("exploration", "deterministic simulation: model-independent high-water-mark monitor over histories, restarts and crash recoveries",
+            "DESIGN.md §5 C04", "Idle-queue histories with roll-over and GC; positions returned by appends are compared with a high-water mark kept outside the model, live, across restarts and after recovery from sampled crash points.",
+            "Flush-per-operation policies, process-crash model (as the statement says)."),
+    "C11": ("fault_enumeration", "deterministic simulation with I/O-error injection at every recovery file-system call",
+            "DESIGN.md §5 C11", "For each seeded WAL image every readdir/file_type/open/seek/read call of recovery is failed (transient and persistent, several errnos, partial reads); open must return Err(IoError) within a step budget.",
+            "Step budget (fault-free calls + 50) is the deterministic definition of 'promptly'; write-path errors not injected."),
 }
 
 NOT_YET = {
